@@ -433,6 +433,7 @@ func runC04(r *simrt.Run) {
 	s := NewSim(r, cfg)
 	k := c03NewKit(s)
 	defer delete(c03Kits, s)
+	k.checkC03 = false // C03's oracles are evaluated by C03 only
 	st := &c04State{k: k, pre: map[*c03RelInfo]*c04Pre{}, credited: map[string]uint64{}, bound: map[string]uint64{}, boundPol: map[string]uint64{}, noChain: map[string]uint64{}, tainted: map[string]bool{}}
 	k.preHooks = append(k.preHooks, st.preHook)
 	k.postHooks = append(k.postHooks, st.postHook)
